@@ -357,7 +357,20 @@ func (ex *Exec) rangeNext(fr *Frame, in *ssa.Next) Value {
 			return TupleV{st.True, st.BVs(64, int64(p)), st.BVs(32, int64(r))}
 		}
 		if !ex.branch(st.Bin(OULt, b, st.BV(8, 0x80))) {
-			ex.unsupported("range over string: symbolic byte >= 0x80 (UTF-8 decoding not modelled)")
+			// over-approximation of UTF-8 decoding: some rune >= 0x80 (or U+FFFD) of width 1..4
+			ex.w.note("stub: UTF-8 decoding of symbolic non-ASCII bytes over-approximated (arbitrary rune >= 0x80, width 1..4)")
+			ex.symKeys++
+			r := ex.st.Var(fmt.Sprintf("utf8.rune.%d", ex.symKeys), SBV(32))
+			ex.inputs = append(ex.inputs, r)
+			ex.assert(st.And(st.Bin(OSLe, st.BV(32, 0x80), r), st.Bin(OSLe, r, st.BV(32, 0x10FFFF))))
+			maxw := n - it.pos
+			if maxw > 4 {
+				maxw = 4
+			}
+			wd := 1 + ex.choose("", maxw)
+			p := it.pos
+			it.pos += wd
+			return TupleV{st.True, st.BVs(64, int64(p)), r}
 		}
 		p := it.pos
 		it.pos++
